@@ -845,6 +845,9 @@ class C15(Check):
         for ln, meta, out in zip(lines, metas, outs):
             r = common.unsx(out)
             report["evaluations"] += 1
+            if isinstance(r, list) and len(r) >= 5 and r[4] in (0, 1):     # validb_crash: hypothesis of C15_covered_kill_runs
+                key = "cases_within_theorem_hypotheses" if r[4] == 1 else "cases_outside_theorem_hypotheses"
+                report["extra"][key] = report["extra"].get(key, 0) + 1
             failed = common.names(r[2]) if isinstance(r, list) and len(r) >= 3 else ["crash_case_rejected"]
             if meta.get("integrity_check", [["ok"]]) != [["ok"]] and meta["read_through"] == "new-connection":
                 failed = failed + ["crash_database_intact"]
